@@ -1,0 +1,38 @@
+//go:build verif
+// +build verif
+
+package stanza
+
+// Verification hooks (build tag "verif" only). Add-only.
+
+import "sort"
+
+// VerifRegEntry describes one TypeRegistry entry.
+type VerifRegEntry struct {
+	Kind         uint8
+	Space, Local string
+	GoType       string
+}
+
+// VerifRegistryDump lists the registry contents in a deterministic order.
+func VerifRegistryDump() []VerifRegEntry {
+	TypeRegistry.msgTypesLock.RLock()
+	defer TypeRegistry.msgTypesLock.RUnlock()
+	var out []VerifRegEntry
+	for k, store := range TypeRegistry.msgTypes {
+		for local, t := range store {
+			out = append(out, VerifRegEntry{uint8(k.packetType), k.namespace, local, t.String()})
+		}
+	}
+	sort.Slice(out, func(i, j int) bool {
+		a, b := out[i], out[j]
+		if a.Kind != b.Kind {
+			return a.Kind < b.Kind
+		}
+		if a.Space != b.Space {
+			return a.Space < b.Space
+		}
+		return a.Local < b.Local
+	})
+	return out
+}
